@@ -9,6 +9,9 @@ import (
 )
 
 func evaluateExpression(e *tree.Expression, retriever variable.Retriever, caller functionCaller) (*variable.Value, error) {
+	if e == nil {
+		return nil, fmt.Errorf("missing expression")
+	}
 	switch {
 	case e.VariableID != nil:
 		value, ok := retriever.GetValue(*e.VariableID)
@@ -17,7 +20,11 @@ func evaluateExpression(e *tree.Expression, retriever variable.Retriever, caller
 		}
 		return value, nil
 	case e.FunctionCall != nil:
-		return evaluateFunctionCall(e.FunctionCall, retriever, caller)
+		value, err := evaluateFunctionCall(e.FunctionCall, retriever, caller)
+		if err == nil && value == nil {
+			return nil, fmt.Errorf("function %s returns nothing and cannot be used as a value", e.FunctionCall.FunctionID)
+		}
+		return value, err
 	case e.Value != nil:
 		return e.Value, nil
 	case e.NegativeExpression != nil:
@@ -39,7 +46,7 @@ func evaluateExpression(e *tree.Expression, retriever variable.Retriever, caller
 	case e.Operator != nil:
 		return evaluateBinaryOperation(*e.Operator, e.LeftOperand, e.RightOperand, retriever, caller)
 	}
-	return nil, nil
+	return nil, fmt.Errorf("expression has no value (null is not supported)")
 }
 
 func evaluateBinaryOperation(operator int, leftOperand, rightOperand *tree.Expression, retriever variable.Retriever, caller functionCaller) (*variable.Value, error) {
